@@ -325,6 +325,9 @@ class Report:
         print(f"[{self.pid}] tier={self.tier} obligations={n_obl} discharged={n_dis} bounded_evaluations="
               f"{self.bounded['evaluations']} undecided={len(self.undecided)} errors={len(self.errors)} "
               f"violations={len(self.violations)} wall={ev['wall_s']}s")
+        if os.environ.get("VERIF_SHOW_SLOW"):      # development aid: the slowest obligations of this run
+            for r in sorted(cov.get("obligation_records", []), key=lambda r: -(r.get("seconds") or 0))[:int(os.environ["VERIF_SHOW_SLOW"])]:
+                print(f"  SLOW {r.get('seconds', 0):8.1f}s {r.get('backend')} {r.get('name')}")
         for u in self.undecided[:20]:
             print("  UNDECIDED:", u)
         for e in self.errors[:20]:
